@@ -159,15 +159,37 @@ func (s *wstub) reviewCount() int {
 	return len(s.revs)
 }
 
-type lazyAuthn struct{ get func() authenticator.Request }
+// The wrappers sit exactly where the production authenticator / authorizer sit in the handler chain, i.e. after
+// WithUpstreamInfo has resolved the cluster the request will be dispatched to. `before` (one shot) lets the harness make a
+// configuration change at that very point of one request - "the host moves to another cluster while a request for it is
+// being processed" - without any timing.
+type lazyAuthn struct {
+	get    func() authenticator.Request
+	before *atomic.Value // func()
+}
+
+func oneShot(v *atomic.Value) {
+	if v == nil {
+		return
+	}
+	if f, _ := v.Load().(func()); f != nil {
+		v.Store((func())(nil))
+		f()
+	}
+}
 
 func (l lazyAuthn) AuthenticateRequest(req *http.Request) (*authenticator.Response, bool, error) {
+	oneShot(l.before)
 	return l.get().AuthenticateRequest(req)
 }
 
-type lazyAuthz struct{ get func() authorizer.Authorizer }
+type lazyAuthz struct {
+	get    func() authorizer.Authorizer
+	before *atomic.Value
+}
 
 func (l lazyAuthz) Authorize(ctx context.Context, a authorizer.Attributes) (authorizer.Decision, string, error) {
+	oneShot(l.before)
 	return l.get().Authorize(ctx, a)
 }
 
@@ -183,6 +205,8 @@ type wiredWorld struct {
 	idn   int
 	lock  sync.Mutex
 	down  map[string]bool // cluster -> its endpoint currently fails the health probes
+
+	beforeAuthn, beforeAuthz atomic.Value
 }
 
 func hostVariant(g *vkit.Rand, h string) string {
@@ -398,8 +422,8 @@ func wired(r *vkit.R) {
 			})
 		}
 		w.gw = bed.NewGateway(bed.GatewayOptions{
-			Authn: lazyAuthn{func() authenticator.Request { build(); return an }},
-			Authz: lazyAuthz{func() authorizer.Authorizer { build(); return az }},
+			Authn: lazyAuthn{func() authenticator.Request { build(); return an }, &w.beforeAuthn},
+			Authz: lazyAuthz{func() authorizer.Authorizer { build(); return az }, &w.beforeAuthz},
 		})
 		defer w.gw.Close()
 		for _, c := range w.names {
@@ -492,13 +516,21 @@ func wired(r *vkit.R) {
 			fresh := fmt.Sprintf("tok-fresh-%d-%d", i, phase)
 			w.send(wreq{Host: a, Token: fresh + "-before"}, true)
 			w.send(wreq{Host: a, Token: fresh + "-before", Impersonate: "admin"}, true)
-			setAlias(a, "")
-			if !w.apply(from) {
-				return
+			if phase%2 == 1 {
+				// the move happens while a request for the alias is inside the handler chain
+				if !w.moveDuringRequest(a, from, to, g.Bool(), setAlias) {
+					return
+				}
 			}
-			setAlias(a, to)
-			if !w.apply(to) {
-				return
+			if w.alias[a] != to {
+				setAlias(a, "")
+				if !w.apply(from) {
+					return
+				}
+				setAlias(a, to)
+				if !w.apply(to) {
+					return
+				}
 			}
 			w.lock.Lock()
 			w.log = append(w.log, fmt.Sprintf("MOVE alias %s: %s -> %s", a, from, to))
@@ -560,9 +592,109 @@ func wired(r *vkit.R) {
 		r.Require(r.Counter("wired_reviews_observed") > int64(nw*20), "wired: too few reviews observed at the stub upstreams")
 		r.Require(r.Counter("wired_impersonation_granted_by_own_cluster") > int64(nw), "wired: impersonation was never granted")
 		r.Require(r.Counter("wired_alias_moves") >= int64(nw*phases*3/4), "wired: too few alias moves")
+		r.Require(r.Counter("wired_moves_during_request") >= int64(nw), "wired: too few alias moves made while a request for the alias was inside the handler chain")
 		r.Require(r.Counter("wired_outages_after_alias_move") >= int64(nw*phases/2) && r.Counter("wired_requests_during_outage") >= int64(nw*phases*2), "wired: too few outages of the new owner after an alias move")
 		r.Require(r.Counter("wired_requests_with_tls_state") >= int64(nw*40) && r.Counter("wired_requests_sni_names_other_cluster_than_host") >= int64(nw*15), "wired: too few requests whose TLS server name differs from the Host header")
 	}
+}
+
+// moveDuringRequest: a request for alias a (owned by `from`) is being processed - the dispatch cluster is already resolved -
+// when the alias moves to `to` (release, then claim), either just before the token is authenticated or just before the
+// impersonation is authorized. Whatever cluster ends up serving the request, the identity it is served under and every
+// review made for it must come from THAT cluster; a refusal is always fine.
+func (w *wiredWorld) moveDuringRequest(a, from, to string, atAuthz bool, setAlias func(a, c string)) bool {
+	r := w.r
+	// credentials both clusters know (otherwise nothing can be observed): a token both authenticate
+	tok := ""
+	for k := 0; k < 200 && tok == ""; k++ {
+		t := fmt.Sprintf("tok-move-%d-%d-%d", w.idx, w.idn, k)
+		if w.stubs[from].answer("token", t) == ansYes && w.stubs[to].answer("token", t) == ansYes {
+			tok = t
+		}
+	}
+	if tok == "" {
+		return true
+	}
+	okMove := true
+	move := func() {
+		setAlias(a, "")
+		okMove = w.apply(from)
+		setAlias(a, to)
+		okMove = okMove && w.apply(to)
+	}
+	q := wreq{Host: a, Token: tok}
+	if atAuthz {
+		q.Impersonate = "admin"
+		w.beforeAuthz.Store(move)
+	} else {
+		w.beforeAuthn.Store(move)
+	}
+	w.lock.Lock()
+	w.idn++
+	id := fmt.Sprintf("c12w-%d-%d", w.idx, w.idn)
+	w.lock.Unlock()
+	before := map[string]int{}
+	for n, s := range w.stubs {
+		before[n] = s.reviewCount()
+	}
+	req := bed.NewRequest("GET", a, "/api/v1/namespaces/default/pods", tok, id, nil)
+	if atAuthz {
+		req.Header.Set("Impersonate-User", "admin")
+	}
+	rec := w.gw.Serve(req)
+	w.beforeAuthn.Store((func())(nil))
+	w.beforeAuthz.Store((func())(nil))
+	if !okMove {
+		return false
+	}
+	if w.alias[a] != to {
+		// the hook did not run (e.g. the request was refused before authorization): make the move now, nothing to judge
+		move()
+		r.Count("wired_move_during_request_not_reached", 1)
+		return okMove
+	}
+	point := "before-authn"
+	if atAuthz {
+		point = "before-authz"
+	}
+	r.Count("wired_moves_during_request", 1)
+	desc := fmt.Sprintf("GET pods Host=%q token=%q impersonate=%q; the alias moved %s -> %s %s of this request -> %d", a, tok, q.Impersonate, from, to, point, rec.Code)
+	w.lock.Lock()
+	w.log = append(w.log, "MOVE DURING REQUEST: "+desc)
+	wit := map[string]interface{}{"world": w.idx, "last_requests_and_moves": append([]string{}, w.log...)}
+	w.lock.Unlock()
+	reviewedAt := map[string]bool{}
+	for n, s := range w.stubs {
+		if s.reviewCount() > before[n] {
+			reviewedAt[n] = true
+		}
+	}
+	gotAt := ""
+	var got proxied
+	for n, s := range w.stubs {
+		if p, ok := s.find(id); ok {
+			got, gotAt = p, n
+		}
+	}
+	if gotAt == "" {
+		r.Count("wired_moves_during_request_refused", 1)
+		return true
+	}
+	r.Count("wired_moves_during_request_forwarded", 1)
+	foreign := false
+	if p := provenanceOf(got.ImpUser); p != "" && p != gotAt {
+		foreign = true
+	}
+	for n := range reviewedAt {
+		if n != gotAt {
+			foreign = true
+		}
+	}
+	if foreign {
+		r.Violation("C12/wired/dispatched-to-other-cluster-than-reviewed/host-moved-"+point,
+			fmt.Sprintf("%s: forwarded to the upstream of %q under identity %q; the reviews for this request went to %v", desc, gotAt, got.ImpUser, keys(reviewedAt)), wit)
+	}
+	return true
 }
 
 func keys(m map[string]bool) []string {
